@@ -1,0 +1,130 @@
+//go:build verif
+
+package main
+
+// Verification hook (build tag `verif` only): a hidden command `veriftrace` that runs the real command-line
+// plumbing (flags → batcher → extractor → helpers.RunAggregationLoop → histogram renderer) with the event
+// log of pkg/extractor/verif_trace.go recording, and writes the log to the file named by RARE_VERIF_TRACE.
+// The aggregator is the real MatchCounter behind a wrapper that logs every Sample; the render callback is
+// the histogram's, bracketed by render.begin (matched total, sum of the displayed counts) / render.end.
+// RARE_VERIF_TICK_US, when set, is the period of the render ticker (hook verifTick).
+
+import (
+	"encoding/hex"
+	"fmt"
+	"os"
+	"strconv"
+	"time"
+
+	"rare/cmd/helpers"
+	"rare/pkg/aggregation"
+	"rare/pkg/aggregation/sorting"
+	"rare/pkg/extractor"
+	"rare/pkg/multiterm/termrenderers"
+
+	"github.com/urfave/cli/v2"
+)
+
+type verifLoggedCounter struct {
+	*aggregation.MatchCounter
+	samples int
+}
+
+func (s *verifLoggedCounter) Sample(ele string) {
+	s.MatchCounter.Sample(ele)
+	s.samples++
+	extractor.VerifTraceAppend("sample", ele, 0, 0)
+}
+
+func verifWaitEvents(name string, want int, d time.Duration) {
+	deadline := time.Now().Add(d)
+	for time.Now().Before(deadline) {
+		n := 0
+		for _, e := range extractor.VerifTracePeek() {
+			if e.Ev == name {
+				n++
+			}
+		}
+		if n >= want {
+			return
+		}
+		time.Sleep(200 * time.Microsecond)
+	}
+}
+
+func verifTraceAction(c *cli.Context) error {
+	out := os.Getenv("RARE_VERIF_TRACE")
+	if out == "" {
+		return cli.Exit("RARE_VERIF_TRACE not set", helpers.ExitCodeInvalidUsage)
+	}
+	if us, err := strconv.Atoi(os.Getenv("RARE_VERIF_TICK_US")); err == nil && us > 0 {
+		helpers.VerifSetTick(time.Duration(us) * time.Microsecond)
+	}
+	extractor.VerifTraceStart()
+
+	vt := helpers.BuildVTermFromArguments(c)
+	counter := &verifLoggedCounter{MatchCounter: aggregation.NewCounter()}
+	writer := termrenderers.NewHistogram(vt, 5)
+	batcher := helpers.BuildBatcherFromArguments(c)
+	ext := helpers.BuildExtractorFromArguments(c, batcher)
+
+	renders, last := 0, int64(0)
+	helpers.RunAggregationLoop(ext, counter, func() {
+		items := counter.ItemsSortedBy(1<<30, sorting.NVNameSorter)
+		var sum int64
+		for _, it := range items {
+			sum += it.Item.Count()
+		}
+		extractor.VerifTraceAppend("render.begin", "", ext.MatchedLines(), uint64(sum))
+		writer.UpdateTotal(counter.Total())
+		for i, it := range items {
+			if i < 5 {
+				writer.WriteForLine(i, it.Name, it.Item.Count())
+			}
+		}
+		writer.WriteFooter(0, helpers.FWriteExtractorSummary(ext, counter.ParseErrors()))
+		writer.WriteFooter(1, batcher.StatusString())
+		renders++
+		last = sum
+		extractor.VerifTraceAppend("render.end", "", 0, 0)
+	})
+	writer.Close()
+
+	// reader goroutines log src.close / rd.end after wg.Done, the ticker logs t.done after the hand-shake
+	starts := 0
+	for _, e := range extractor.VerifTracePeek() {
+		if e.Ev == "rd.start" {
+			starts++
+		}
+	}
+	verifWaitEvents("rd.end", starts, 2*time.Second)
+	verifWaitEvents("t.done", 1, 2*time.Second)
+	evs := extractor.VerifTraceStop()
+
+	f, err := os.Create(out)
+	if err != nil {
+		return err
+	}
+	defer f.Close()
+	fmt.Fprintf(f, "summary %d %d %d %d %d %d %d\n", ext.ReadLines(), ext.MatchedLines(), ext.IgnoredLines(), counter.samples, batcher.ReadErrors(), renders, last)
+	for _, e := range evs {
+		s := "-"
+		if e.S != "" {
+			s = hex.EncodeToString([]byte(e.S))
+		}
+		fmt.Fprintf(f, "ev %d %s %s %d %d\n", e.G, e.Ev, s, e.A, e.B)
+	}
+	return helpers.DetermineErrorState(batcher, ext, counter)
+}
+
+func init() {
+	appModifiers = append(appModifiers, func(app *cli.App) {
+		app.Commands = append(app.Commands, helpers.AdaptCommandForExtractor(cli.Command{
+			Name:   "veriftrace",
+			Usage:  "verification hook: run the aggregation loop with the event log recording",
+			Hidden: true,
+			Action: verifTraceAction,
+			Flags:  []cli.Flag{helpers.SnapshotFlag, helpers.NoOutFlag},
+		}))
+	})
+}
